@@ -18,6 +18,7 @@
 //   -DC12_FROM_LO=a -DC12_FROM_HI=b   From-period indices of this unit (all 10 To periods)
 //   -DC12_REPSET=0..5                 0: i64/i64   1: i32/i32   2: i32->i64, i64->i32   3: f64/f64, i64->f64, f64->i64
 //                                     4: u32/u32, u64->i64, u16/u16   5: i64->u64, i32->u32, u32->i64, u16->i32
+//   -DC12_PERSET=1                    second period family {4, 6, 9, 10, 15, 1/6, 1/10, 6/5, 4/7, 10/21} (numerators/denominators sharing factors)
 //   -DC12_X=1                         only the nano x ratio<5,7> cells (need etl::lcm without the m*n overflow), all repsets
 #include "vf.hpp"
 #include "vf_contract.hpp"
@@ -59,6 +60,10 @@ using u64    = std::uint64_t;
 
 // ------------------------------------------------------------------ periods of the property
 template <int I> struct Per;
+#ifndef C12_PERSET
+    #define C12_PERSET 0
+#endif
+#if C12_PERSET == 0
 template <> struct Per<0> { static constexpr long long n = 1, d = 1000000000; };
 template <> struct Per<1> { static constexpr long long n = 1, d = 1000000; };
 template <> struct Per<2> { static constexpr long long n = 1, d = 1000; };
@@ -69,6 +74,20 @@ template <> struct Per<6> { static constexpr long long n = 86400, d = 1; };
 template <> struct Per<7> { static constexpr long long n = 1, d = 3; };
 template <> struct Per<8> { static constexpr long long n = 5, d = 7; };
 template <> struct Per<9> { static constexpr long long n = 1001, d = 30000; };
+#else
+// second period family (-DC12_PERSET=1): composite numerators / denominators that share factors pairwise without dividing each other,
+// so that the common type's period really needs gcd(num1, num2) / lcm(den1, den2) (4 with 6 -> 2, 6/5 with 4/7 -> 2/35, 1/6 with 1/10 -> 1/30 ...)
+template <> struct Per<0> { static constexpr long long n = 4, d = 1; };
+template <> struct Per<1> { static constexpr long long n = 6, d = 1; };
+template <> struct Per<2> { static constexpr long long n = 9, d = 1; };
+template <> struct Per<3> { static constexpr long long n = 10, d = 1; };
+template <> struct Per<4> { static constexpr long long n = 15, d = 1; };
+template <> struct Per<5> { static constexpr long long n = 1, d = 6; };
+template <> struct Per<6> { static constexpr long long n = 1, d = 10; };
+template <> struct Per<7> { static constexpr long long n = 6, d = 5; };
+template <> struct Per<8> { static constexpr long long n = 4, d = 7; };
+template <> struct Per<9> { static constexpr long long n = 10, d = 21; };
+#endif
 template <int I> using EP = etl::ratio<Per<I>::n, Per<I>::d>;
 template <int I> using SP = std::ratio<Per<I>::n, Per<I>::d>;
 
@@ -1198,7 +1217,7 @@ std::vector<CellFn>& cells()
     static std::vector<CellFn> v;
     return v;
 }
-constexpr bool x_pair(int a, int b) { return (a == 0 && b == 8) || (a == 8 && b == 0); }
+constexpr bool x_pair(int a, int b) { return C12_PERSET == 0 && ((a == 0 && b == 8) || (a == 8 && b == 0)); } // nano x 5/7 of the first period family
 
 template <int RS, int I1, int I2>
 void add_cells()
@@ -1281,5 +1300,9 @@ void run_case(vf::Case& cs)
 #if C12_X
 VF_MAIN("C12", "C12_dur_x", spec, run_case)
 #else
+#if C12_PERSET == 0
 VF_MAIN("C12", "C12_dur_f" C12_STR(C12_FROM_LO) "_" C12_STR(C12_FROM_HI) "_r" C12_STR(C12_REPSET), spec, run_case)
+#else
+VF_MAIN("C12", "C12_dur_f" C12_STR(C12_FROM_LO) "_" C12_STR(C12_FROM_HI) "_r" C12_STR(C12_REPSET) "_p" C12_STR(C12_PERSET), spec, run_case)
+#endif
 #endif
